@@ -132,7 +132,7 @@ class Ctx:
             if 'Element' in s.variants:
                 names = [n for n, _ in self.sdef.variant_by_name('Element')[2]]
                 fs = list(s.variants['Element'])
-                fs[names.index('argument')] = BoxV(Opaque('%s.index%d' % (tag, i)))
+                fs[names.index('argument')] = BoxV(Opaque('in:expr:%s.index%d' % (tag, i)))
                 s.variants['Element'] = tuple(fs)
             steps.append(s)
         n = z3.BitVec(tag + '.nsteps', 64)
@@ -170,7 +170,7 @@ class Ctx:
         nm = zand(is_err, e.discr == bv(self.edef.variant_by_name('NotMutable')[1], 64)) if e is not None else z3.BoolVal(False)
         return nm, p.discr == bv(self.pdef.variant_by_name('Poisoned')[1], 64)
 
-    def ask(self, ex, name, formula, text, kind='claim', describe=None):
+    def ask(self, ex, name, formula, text, kind='claim', describe=None, native_fn=None):
         s = z3.SolverFor('QF_BV')
         s.add(*ex.assumptions)
         s.add(formula)
@@ -198,7 +198,10 @@ class Ctx:
             self.unconfirmed.append('%s has a counter-model and no native replay' % name)
             return
         line, want = describe(m)
-        got = native([line])[0]
+        if line is None:
+            self.unconfirmed.append('%s has a counter-model that the native replay cannot express' % name)
+            return
+        got = (native_fn or native)([line])[0]
         q['counterexample'] = {'request': line, 'native': got, 'expected': want}
         if got == want:
             self.unconfirmed.append('counterexample of %s does not reproduce natively: %s -> %s' % (name, line, got))
@@ -325,7 +328,7 @@ def run(tier):
                 names = [n for n, _ in sdef.variant_by_name('Assignment')[2]]
                 fs = [None] * len(names)
                 fs[names.index('reference')] = ref
-                fs[names.index('value')] = Opaque('value')
+                fs[names.index('value')] = Opaque('in:expr:value')
                 fs[names.index('location')] = z3.BitVec('assign.location', 8)
                 val = EnumV(sdef, bv(sdef.variant_by_name('Assignment')[1], 64), {'Assignment': tuple(fs)})
                 g, res = ex.call_function(impl_fn(dump, 'common::Statement'), [val, PlaceRef((0, 'analyzer'))], z3.BoolVal(True), st)
@@ -447,14 +450,161 @@ def run(tier):
         if bad:
             raise Inconclusive('encoding of the %s arm disagrees with the native pass: %r' % (arm, bad[:3]))
 
+    # ---- every arm analyses its direct children
+    traversal_clause(C)
     # ---- what declarations record
     declare_clauses(C)
     C.wall = time.time() - t0
     return C
 
 
+STMT_ANALYZE = r'<(?:common::)?Statement as (?:mutability::)?Analyzable>::analyze$'
+
+
+def leftovers(v, acc=None):
+    """Tags of input expressions/statements (Opaque 'in:...') that occur in a value."""
+    if acc is None:
+        acc = []
+    if isinstance(v, Opaque):
+        if v.tag.startswith('in:'):
+            acc.append(v.tag)
+    elif isinstance(v, (BoxV, BoxPtr)):
+        leftovers(v.content, acc)
+    elif isinstance(v, ValRef):
+        leftovers(v.val, acc)
+    elif isinstance(v, Agg):
+        for f in v.fields:
+            leftovers(f, acc)
+    elif isinstance(v, EnumV):
+        for fs in v.variants.values():
+            for f in fs:
+                leftovers(f, acc)
+    elif isinstance(v, Model):
+        for f in v.f.values():
+            leftovers(f, acc)
+    return acc
+
+
+def traversal_clause(C):
+    """For every Expression and Statement variant: the pass hands every direct child expression/statement to the analysis
+    (havoc here) and returns none of them unanalysed - so no E530 inside a sub-expression can be skipped.  Children are opaque
+    values, so the result holds for arbitrary children; there is nothing left for a solver to decide (no branch depends on
+    them), the verdict is read off the symbolically executed result."""
+    dump = C.dump
+    xdef = C.defs.find_enum('alpha::common::Expression')
+    sdef = C.defs.find_enum('alpha::common::Statement')
+    expr_fn = impl_fn(dump, 'common::Expression')
+    stmt_fn = impl_fn(dump, 'common::Statement')
+
+    def build(ex, ty, tag):
+        t = ty.replace('alpha::common::', '').replace('common::', '').strip()
+        if t == 'Box<Expression>':
+            return BoxV(Opaque('in:expr:' + tag))
+        if t == 'Expression':
+            return Opaque('in:expr:' + tag)
+        if t == 'Box<Statement>':
+            return BoxV(Opaque('in:stmt:' + tag))
+        if t == 'Option<Expression>':
+            return EnumV(C.defs.find_enum('Option'), bv(1, 64), {'None': (), 'Some': (Opaque('in:expr:' + tag),)})
+        if t in ('Vec<Expression>', 'Vec<Statement>', 'Vec<MemberExpression>'):
+            inner = t[4:-1]
+            return Model('vec', items=Agg([build(ex, inner, tag + '[0]'), None], 'vecitems'), len=bv(1, 64), cap=bv(1, 64))
+        if t == 'Option<Else>':
+            return EnumV(C.defs.find_enum('Option'), bv(1, 64), {'None': (), 'Some': (build(ex, 'Else', tag),)})
+        if t in ('Array', 'MemberExpression', 'Comparison', 'Block', 'Else'):
+            sd = C.defs.find_struct('alpha::common::' + t)
+            return Agg([build(ex, ft, '%s.%s' % (tag, f)) for f, ft in sd.fields], sd.name)
+        if t == 'Reference':
+            return C.fresh_reference(ex, 'tr.' + tag)[0]
+        if t in ('Location', 'String'):
+            return z3.BitVec('tr.%s' % tag, 8)
+        for cand in ('alpha::common::' + t, ty):
+            try:
+                v = ex.fresh_value(cand, 'tr.' + tag, depth=1, expand=lambda b: b in ('Option', 'Result', 'ValueType', 'Poison', 'Identifier'))
+            except (KeyError, Unsupported):
+                continue
+            if not isinstance(v, Opaque):
+                return v
+        return Opaque('other:' + tag)
+
+    for edef, fn, kind in ((xdef, expr_fn, 'Expression'), (sdef, stmt_fn, 'Statement')):
+        for vname, d, fields in edef.variants:
+            if not fields or vname == 'Poison':
+                continue
+            ex = C.executor(loop_bound=4)
+            ex.havoc_patterns = [EXPR_ANALYZE, STMT_ANALYZE]
+            mp = C.fresh_map(ex, 'tr%s%s' % (kind, vname))
+            none = EnumV(C.defs.find_enum('Option'), bv(0, 64), {'None': ()})
+            # type annotations do not matter for the traversal: absent
+            vals = tuple(none if (f in ('value_type', 'deref_type', 'element_type', 'return_type', 'builtin') and ft.strip().startswith('Option<'))
+                         else build(ex, ft, '%s.%s' % (vname, f or i)) for i, (f, ft) in enumerate(fields))
+            inputs = leftovers(Agg(list(vals)))
+            val = EnumV(edef, bv(d, 64), {vname: vals})
+            st = State()
+            st.mem[(0, 'analyzer')] = C.analyzer(mp)
+            t1 = time.time()
+            try:
+                g, res = ex.call_function(fn, [val, PlaceRef((0, 'analyzer'))], z3.BoolVal(True), st)
+            except (Unsupported, PathAbort) as e:
+                raise Inconclusive('cannot encode the %s::%s arm of the mutability pass: %s' % (kind, vname, e))
+            C.exec_s += time.time() - t1
+            left = leftovers(res)
+            name = 'traversal:%s::%s' % (kind, vname)
+            text = ('the %s::%s arm hands each of its %d direct child expressions/statements to the analysis and returns none of them '
+                    'unanalysed' % (kind, vname, len(inputs)))
+            q = {'name': name, 'result': 'unsat' if not left else 'sat', 'seconds': 0.0, 'statement': text,
+                 'children': inputs, 'decided_by': 'symbolic execution with opaque children (no solver query needed)'}
+            C.queries.append(q)
+            C.finish_ex(ex)
+            if not left:
+                continue
+            field = left[0].split(':')[2].split('.')[1].split('[')[0] if left[0].count(':') >= 2 else '?'
+            line = 'wrap 3:0 3 %s:%s' % (vname, field)
+            if kind != 'Expression':
+                C.unconfirmed.append('%s: child %s is returned unanalysed (no native replay for statements)' % (name, left[0]))
+                continue
+            try:
+                got = native([line])[0]
+            except Inconclusive:
+                got = 'PANIC'
+            q['counterexample'] = {'request': line, 'native': got, 'expected': 'err530'}
+            if got != 'ok':
+                C.unconfirmed.append('counterexample of %s does not reproduce natively: %s -> %s' % (name, line, got))
+                continue
+            C.pending.append((name, text, line, got))
+
+
+def conc_type(C, m, x):
+    """Concrete type (identifiers by resolution id) denoted by the symbolic type x in model m."""
+    d = m.eval(x.discr, model_completion=True).as_long()
+    _, v, fields = x.edef.variant_by_discr(d)
+    out = [v]
+    for sf in x.variants.get(v, ()):
+        if isinstance(sf, (BoxV, BoxPtr)):
+            out.append(conc_type(C, m, sf.content) if sf.content is not None else ('Void',))
+        elif isinstance(sf, Agg):
+            out.append(m.eval(sf.fields[C.ridx], model_completion=True).as_long())
+        elif isinstance(sf, EnumV):
+            some = m.eval(sf.discr, model_completion=True).as_long() == 1
+            out.append(m.eval(sf.variants['Some'][0].fields[C.ridx], model_completion=True).as_long() if some else None)
+        else:
+            out.append(m.eval(sf, model_completion=True).as_long())
+    return tuple(out)
+
+
+def native_typer(lines):
+    """Requests that need the type parser go through pv_replay typer-eval."""
+    replay.write_generated({})
+    binary, _ = replay.build()
+    rc, out, err = replay.run(binary, ['typer-eval'], stdin='\n'.join(lines) + '\n')
+    if rc != 0:
+        raise Inconclusive('native evaluation failed: ' + err[-300:])
+    return out.split('\n')[:len(lines)]
+
+
 def declare_clauses(C):
     dump = C.dump
+    import vtlib
     vt = 'alpha::value_type::ValueType<common::Identifier>'
     rdef = C.defs.find_enum('Result')
     odef = C.defs.find_enum('Option')
@@ -464,7 +614,7 @@ def declare_clauses(C):
         ex.abstract_types = {k: v for k, v in ex.abstract_types.items() if v is not None}
         mp = C.fresh_map(ex, form + 'm')
         name = ex.fresh_value('alpha::common::Identifier', form + '.name', depth=1)
-        vtype = ex.fresh_value(vt, form + '.type', depth=1, expand=lambda b: b in ('ValueType', 'Option', 'Result'))
+        vtype = ex.fresh_value(vt, form + '.type', depth=3, expand=lambda b: b in ('ValueType', 'Option', 'Result', 'Identifier'))
         type_ok = z3.Bool(form + '.type_ok')
         ptype = EnumV(rdef, zite(type_ok, bv(0, 64), bv(1, 64)),
                       {'Ok': (vtype,), 'Err': (EnumV(C.pdef, bv(C.pdef.variant_by_name('Poisoned')[1], 64), {'Poisoned': ()}),)})
@@ -535,7 +685,23 @@ def declare_clauses(C):
                 'member': 'a structure member is recorded as mutable',
                 'constant': 'a constant is recorded as immutable (mutable only when its type is already an error)'}[form]
         C.ask(ex, 'declare:%s:total' % form, zand(in_model, zor(znot(g), *panics)), 'the %s declaration returns without panic' % form)
-        C.ask(ex, 'declare:%s:recorded' % form, zand(in_model, g, declared, znot(zand(found, mutable == expect_mut))), text)
+        form_no = {'parameter': 0, 'member': 1, 'constant': 2, 'local': 3}[form]
+
+        def d_decl(m, form_no=form_no, vtype=vtype, type_ok=type_ok, form=form):
+            ok_t = z3.is_true(m.eval(type_ok, model_completion=True))
+            if form == 'local' and not z3.is_true(m.eval(has_type, model_completion=True)):
+                return None, None
+            ct = conc_type(C, m, vtype) if ok_t else None
+            line = 'declared %d %s' % (form_no, vtlib.wire(ct) if ct is not None else 'err')
+            if form == 'member':
+                want = 'mutable'
+            elif form == 'local':
+                want = 'immutable' if (ct is not None and ct[0] in ('Slice', 'SlicePointer', 'View')) else 'mutable'
+            else:
+                want = 'mutable' if ct is None else 'immutable'
+            return line, want
+        C.ask(ex, 'declare:%s:recorded' % form, zand(in_model, g, declared, znot(zand(found, mutable == expect_mut))), text,
+              describe=d_decl, native_fn=native_typer)
         C.ask(ex, 'declare:%s:frame' % form, zand(in_model, g, znot(untouched)), 'no other entry of the map changes (%s)' % form)
         C.ask(ex, 'declare:%s:witness' % form, zand(in_model, g, declared, znot(expect_mut)) if form != 'member' else zand(in_model, g, declared),
               'witness: a %s declaration recorded as %s' % (form, 'mutable' if form == 'member' else 'immutable'), 'witness')
